@@ -24,7 +24,7 @@
 (***************************************************************************)
 EXTENDS Naturals, Sequences, FiniteSets, TLC, Json
 
-CONSTANTS MaxLen,      \* longest prefix generated
+CONSTANTS DepthLimit, MaxLen,      \* longest prefix generated
           MaxWS,       \* most whitespace classes in one prefix (bounds the self-loops)
           Emit         \* TRUE: print one JSON record per viable prefix
 
@@ -59,10 +59,11 @@ AfterValue(s, c) ==
   ELSE IF c = "}" THEN (IF s # <<>> /\ Top(s) = "O" THEN St("E", Pop(s), FALSE, <<>>) ELSE Dead)
   ELSE Dead
 
-\* start of a value
+\* start of a value.  encoding/json refuses documents nested deeper than 10000 containers ("exceeded max depth"): the
+\* language that Valid accepts has a depth limit, and opening a container inside DepthLimit others is a syntax error.
 BeginValue(s, c) ==
-  IF c = "{" THEN St("O0", Append(s, "O"), FALSE, <<>>)
-  ELSE IF c = "[" THEN St("A0", Append(s, "A"), FALSE, <<>>)
+  IF c = "{" THEN (IF Len(s) >= DepthLimit THEN Dead ELSE St("O0", Append(s, "O"), FALSE, <<>>))
+  ELSE IF c = "[" THEN (IF Len(s) >= DepthLimit THEN Dead ELSE St("A0", Append(s, "A"), FALSE, <<>>))
   ELSE IF c = "\"" THEN St("S", s, FALSE, <<>>)
   ELSE IF c = "-" THEN St("N-", s, FALSE, <<>>)
   ELSE IF c = "0" THEN St("N0", s, FALSE, <<>>)
@@ -223,7 +224,19 @@ InsertionsOf == IF Accepting(m, stk) /\ Len(doc) > 0
                 ELSE {}
 InsertionsAreDead == \A x \in InsertionsOf : ~Verdict(Ins(x.p, x.c))
 
-Record == [d |-> doc, a |-> Accepting(m, stk), k |-> Kills(m, stk, key, lit),
+\* Depth lifting: the deepest nesting a document reaches, and the lemma that wrapping it in j more arrays keeps the verdict
+\* exactly as long as that depth plus j stays within the limit (checked with a small DepthLimit; the harness applies it at 10000)
+RECURSIVE DeepestRun(_, _, _, _, _, _)
+DeepestRun(mm, s, kk, ll, w, mx) ==
+  IF w = <<>> THEN mx
+  ELSE LET n == Step(mm, s, kk, ll, Head(w)) IN
+       IF n.m = "DEAD" THEN mx ELSE DeepestRun(n.m, n.stk, n.key, n.lit, Tail(w), IF Len(n.stk) > mx THEN Len(n.stk) ELSE mx)
+Deepest(w) == DeepestRun("V", <<>>, FALSE, <<>>, w, 0)
+WrapA(j, w) == [i \in 1..j |-> "["] \o w \o [i \in 1..j |-> "]"]
+DepthLifting == Accepting(m, stk) =>
+   \A j \in 0..3 : Verdict(WrapA(j, doc)) = (Deepest(doc) + j <= DepthLimit)
+
+Record == [d |-> doc, a |-> Accepting(m, stk), k |-> Kills(m, stk, key, lit), md |-> Deepest(doc),
            c |-> Completion(m, stk, key, lit), m |-> m, n |-> Len(stk), w |-> WrapVerdicts, ins |-> InsertionsOf]
 EmitVector == Emit => PrintT(ToJson(Record))
 =============================================================================
